@@ -30,17 +30,37 @@ DRIVER = "Ampverif/Drivers/C02.lean"
 KNOWN_CLASS = "identical final-state particles with unequal helicities are summed coherently"
 PROBE = "psi2s_gamma_gamma_jpsi.hel.json"
 QUICK_ORACLE = ["jpsi_gamma_pi0_pi0_omega_f0.hel.json", "lambdac_p_k_pi.hel.json", "jpsi_sigma1750.can.json",
-                "psi2s_gamma_gamma_jpsi.hel.json"]
+                "psi2s_gamma_gamma_jpsi.hel.json", "shape_L0_spin1.can", "shape_two_resonances_identical.hel"]
+QUICK_PLAIN = ["jpsi_sigma1750.can.json", "psi2s_gamma_gamma_jpsi.hel.json"]
+QUICK_LINESHAPES = ["jpsi_gamma_pi0_pi0_omega_f0.hel.json", "lambdac_p_k_pi.hel.json", "shape_L0_spin1.can",
+                    "shape_two_resonances_identical.hel"]
 
 
-def load_corpus():
+def load_corpus(big: bool = False):
     import qrules
 
     out = {}
     for d in M.CORPUS:
         for f in sorted(d.glob("*.json")):
             out[f.name] = qrules.io.load(f)
+    # deterministic rare shapes (HARDENING rule 5): explicit L = 0 under an integer-spin resonance, spins 3/2 and 2,
+    # both child orderings, two resonances at the top node, identical particles in different branches with unequal
+    # helicities, unlike parity factors along a chain
+    out.update(L.shaped_reactions(big))
     return out
+
+
+def has_explicit_l0(reaction) -> bool:
+    """some resonance with non-zero integer spin decays with an explicit L = 0."""
+    for t in reaction.transitions:
+        for n in t.topology.nodes:
+            (pin,) = t.topology.get_edge_ids_ingoing_to_node(n)
+            if t.topology.edges[pin].originating_node_id is None:
+                continue
+            sp_ = t.states[pin].particle.spin
+            if t.interactions[n].l_magnitude == 0 and float(sp_) == int(sp_) and int(sp_) > 0:
+                return True
+    return False
 
 
 def has_unequal_identical(reaction) -> bool:
@@ -120,6 +140,21 @@ def correspondence(chk: common.Check, corpus, variant, own, rng, n_synth: int, t
         for fl in extra:
             if fl != default_flags(can):
                 add(name, reaction, False, fl, "corpus-flags")
+    # HARDENING rule 3: the same configuration reached through a history on ONE builder object
+    hist_names = [n for n in corpus if n.startswith(("jpsi_sigma1750.hel", "jpsi_gamma_pi0_pi0_omega_f0.can", "shape_two"))]
+    if thorough:
+        hist_names = [n for n in corpus if len(corpus[n].transitions) <= 60]
+    for name in hist_names:
+        reaction = corpus[name]
+        can = reaction.formalism.startswith("canonical")
+        couplings = rng.random() < 0.5
+        obs = M.observe_after_history(reaction, couplings, default_flags(can), rng)
+        text += M.lean_block(can, couplings, default_flags(can), reaction.transitions)
+        cases.append({"label": name + "@history", "reaction": reaction, "couplings": couplings, "flags": default_flags(can),
+                      "obs": obs, "kind": "history", "desc": None, "dyn": ()})
+        dist["history"] += 1
+        if not all(obs["history_equal"].values()):
+            chk.broken_correspondence("history", {"case": name, "steps": obs["history"], **obs["history_equal"]})
     n_ok = tries = 0
     while n_ok < n_synth and tries < 10 * n_synth:
         tries += 1
@@ -214,6 +249,11 @@ def numeric_compare(reaction, couplings, flags, rng, n_points, lineshapes=False)
     pre = getattr(builder, "_HelicityAmplitudeBuilder__generate_amplitude_prefactor", None)
     values = {p.name: complex(rng.uniform(-1, 1), rng.uniform(-1, 1)) for p in model.parameter_defaults
               if p.name.startswith(("C_{", "H_{"))}
+    for i_v, k_v in enumerate(sorted(values)):  # complex, purely real and purely imaginary values
+        if i_v % 4 == 1:
+            values[k_v] = complex(values[k_v].real, 0.0)
+        elif i_v % 4 == 2:
+            values[k_v] = complex(0.0, values[k_v].imag)
 
     def coefficient_of(g):
         if couplings:
@@ -258,13 +298,18 @@ def numeric_compare(reaction, couplings, flags, rng, n_points, lineshapes=False)
         return {"what": "unexpected free symbols in the model expression", "symbols": odd}, 0
     f = sp.lambdify(syms, expr, "numpy")
     worst = None
-    for _ in range(n_points):
+    for i_pt in range(n_points + 2):
         ang = {n: (rng.uniform(0.1, math.pi - 0.1) if n.startswith("theta") else rng.uniform(-math.pi, math.pi))
                for n in sorted(names)}
+        if i_pt >= n_points:  # boundaries of the angular domain: every theta on 0 / pi (mixed in the last point)
+            for j, n in enumerate(sorted(names)):
+                if n.startswith("theta"):
+                    ang[n] = [0.0, math.pi][(i_pt + (j if i_pt > n_points else 0)) % 2]
         real = float(np.real(complex(f(*[ang[s.name] for s in syms]))))
         spec, n_terms, n_conf = O.spec_intensity(reaction, coefficient_of, ang, lineshape_of if lineshapes else None)
         scale = max(abs(spec), abs(real), 1e-300)
-        if abs(real - spec) > 1e-9 * scale and (worst is None or abs(real - spec) / scale > worst["relative_difference"]):
+        # the intensity can vanish exactly on the boundary: absolute floor relative to the size of the terms (O(1) each)
+        if abs(real - spec) > 1e-9 * scale + 1e-11 * max(1, n_terms) and (worst is None or abs(real - spec) / scale > worst["relative_difference"]):
             worst = {"angles": ang, "model_expression": real, "helicity_formula": spec,
                      "relative_difference": abs(real - spec) / scale, "terms": n_terms, "outer_configurations": n_conf,
                      "parameters": {k: [v.real, v.imag] for k, v in list(values.items())[:6]}}
@@ -297,23 +342,24 @@ def oracle(chk: common.Check, corpus, cases, rng, thorough: bool, broken: bool):
     names = list(corpus) if thorough else [n for n in QUICK_ORACLE if n in corpus]
     for n in names:
         r = corpus[n]
-        if len(r.transitions) > 60:
+        if len(r.transitions) > 80:
             continue
         can = r.formalism.startswith("canonical")
-        todo.append((n, r, False, default_flags(can)))
+        if thorough or n in QUICK_PLAIN:
+            todo.append((n, r, False, default_flags(can)))
         if thorough or n.startswith("jpsi_sigma1750"):
             todo.append((n, r, True, default_flags(can)))
+        if thorough or n in QUICK_LINESHAPES:
+            todo.append((n + "+lineshapes", r, False, default_flags(can)))
     synth = [c for c in cases if c["kind"].startswith("synthetic") and len(c["reaction"].transitions) <= 24]
-    # cases where the theorem's hypothesis fails are the interesting ones: always look at some
+    # cases where the theorem's hypothesis fails are the interesting ones: always look at some; then canonical cases with an
+    # explicit L = 0 under an integer-spin resonance (the lineshape's angular momentum must not fall back to the spin)
     hyp = [c for c in synth if c.get("wf") is False]
     rest = [c for c in synth if c.get("wf") is not False]
+    rest.sort(key=lambda c: 0 if has_explicit_l0(c["reaction"]) else 1)
     k = (12 if thorough else 3) * (3 if broken else 1)
     for c in hyp[: (6 if thorough else 2)] + rest[:k]:
-        todo.append((c["label"], c["reaction"], c["couplings"], c["flags"]))
-    ls_names = [n for n in names if n.startswith(("jpsi_gamma_pi0_pi0_omega_f0", "lambdac_p_k_pi.hel", "jpsi_sigma1750.can"))]
-    for n in ls_names[: (6 if thorough else 2)]:
-        r = corpus[n]
-        todo.append((n + "+lineshapes", r, False, default_flags(r.formalism.startswith("canonical"))))
+        todo.append((c["label"] + "+lineshapes", c["reaction"], c["couplings"], c["flags"]))
     n_done = 0
     for label, r, couplings, flags in todo:
         with_ls = label.endswith("+lineshapes")
@@ -327,7 +373,7 @@ def oracle(chk: common.Check, corpus, cases, rng, thorough: bool, broken: bool):
         if fail is not None:
             fail.update({"case": label, "couplings": couplings, "flags": flags, "formalism": r.formalism,
                          "identical_particles_with_unequal_helicities": has_unequal_identical(r)})
-            desc = next((c.get("desc") for c in cases if c["label"] == label), None)
+            desc = next((c.get("desc") for c in cases if c["label"] == label.replace("+lineshapes", "")), None)
             if desc:
                 fail["description"] = desc
             found.append(fail)
@@ -354,7 +400,7 @@ class C02Property:
 
         cases, corpus = [], {}
         try:
-            corpus = load_corpus()
+            corpus = load_corpus(thorough)
             from tools.props import C03 as c03
 
             c03_corpus = {k: v for k, v in corpus.items() if k in c03.PROBES}
@@ -377,6 +423,19 @@ class C02Property:
             chk.broken_correspondence("real-code", "".join(traceback.format_exception(type(e), e, e.__traceback__))[-1200:])
 
         own_inferred = bool(chk.coverage.get("inferred_amplitude_registration", "own").startswith("own"))
+        # HARDENING rule 6: nothing may depend on the hash seed (fresh processes)
+        try:
+            files = [M.CORPUS[1] / "jpsi_sigma1750.hel.json", M.CORPUS[0] / "jpsi_gamma_pi0_pi0_omega_f0.hel.json",
+                     M.CORPUS[0] / "psi2s_gamma_gamma_jpsi.hel.json"]
+            runs = L.hashseed_runs(files, [1, 2, 3] if not thorough else [1, 2, 3, 4, 5, 6])
+            for b in L.compare_hashseed_runs(chk, runs, ["amplitude_order", "amplitude_terms", "component_order", "intensity",
+                                                         "pools", "combinatorics", "parameter_order"], "C02")[:3]:
+                chk.broken_correspondence("hash-seed", b)
+        except common.InfraError:
+            raise
+        except Exception as e:  # noqa: BLE001
+            chk.broken_correspondence("hash-seed", "".join(traceback.format_exception_only(type(e), e))[-400:])
+
         found = []
         try:
             found = oracle(chk, corpus, cases, common.rng_for(PROP_ID, seed, "oracle"), thorough, bool(chk.broken))
